@@ -20,9 +20,9 @@ func init() {
 		Explanation: "Decided: R17-setline — every AST node (a type embedding ast.Node) constructed in a grammar action of parse/parser.go or synthesised in compile.go has SetLine called on that very node (same access path) before the action / function ends, and the node kinds that carry a block also get SetLastLine; exempt with reasons: the main chunk's synthetic FunctionExpr and the folded constant whose line is set by the two callers of constFold; " +
 			"R17-rawread — 'line information is a function of token positions only': the input reader is read only inside Scanner.readNext/Peek/Newline, so every newline byte passes the line counter; Next counts a line for both '\\n' and '\\r' through Newline (which swallows the second half of CRLF/LFCR); a token's position is taken from the scanner before the token is scanned; " +
 			"R17-blocks — EnterBlock/LeaveBlock are paired on every non-raising path of each compile function that opens a scope; LeaveBlock and compileFunctionExpr call EndScope (every DbgLocalInfo gets an EndPc) and RegisterLocalVar records StartPc; R17-lines — no instruction that can raise at run time is attributed to the closing line of its statement (eline is reserved for block-closing instructions); R17-where — error positions and currentline are read from DbgSourcePositions[Pc-1] of the frame's own prototype; R07-parallel shared (the line table is written in lock-step with the code). " +
-			"NOT decided: which line each instruction receives, pc-range correctness after the peephole passes.",
+			"R17-scope — the scope records debug.getlocal reads: the end of a scope is written through the block's own records (never through DbgLocals[register]), and the writer's convention for EndPc/StartPc (LastPC()+1, exclusive end) agrees with the reader's comparisons in LFunction.LocalName. NOT decided: which line each instruction receives, pc-range correctness after the peephole passes.",
 		Trusted: []string{},
-		Rules:   []func(*Ctx){ruleSetLine, ruleRawRead, ruleBlocks, ruleWhere, ruleRaisingLines, ruleParallel},
+		Rules:   []func(*Ctx){ruleSetLine, ruleRawRead, ruleBlocks, ruleWhere, ruleRaisingLines, ruleParallel, ruleScopes},
 	})
 }
 
@@ -198,7 +198,7 @@ func ruleSetLine(c *Ctx) {
 	// compiler-synthesised nodes
 	lk := p.Pkg("lua")
 	exempt := map[string]string{
-		"Compile:FunctionExpr": "synthetic main chunk: linedefined of a main chunk is 0; SetLastLine is called",
+		"Compile:FunctionExpr":      "synthetic main chunk: linedefined of a main chunk is 0; SetLastLine is called",
 		"constFold:constLValueExpr": "the two callers that compile a folded node (compileArithmeticOpExpr, compileUnaryOpExpr) set its line",
 	}
 	for _, f := range lk.Syntax {
@@ -514,7 +514,7 @@ func ruleRaisingLines(c *Ctx) {
 
 func ruleWhere(c *Ctx) {
 	const R = "R17-where"
-	c.floor(R, 2)
+	c.floor(R, 5)
 	p := c.P
 	posF := p.Field("lua", "FunctionProto", "DbgSourcePositions")
 	pcF := p.Field("lua", "callFrame", "Pc")
@@ -540,6 +540,177 @@ func ruleWhere(c *Ctx) {
 				}
 			}
 		})
+		// the index Pc-1 is only formed when Pc > 0 (a frame that has not executed anything yet has Pc == 0)
+		g := p.G(fn)
+		guarded := false
+		allInstrs(fn, func(in ssa.Instruction) {
+			ia, ok := in.(*ssa.IndexAddr)
+			if !ok {
+				return
+			}
+			if _, ok := loadsField(ia.X, posF); !ok {
+				return
+			}
+			for _, cd := range g.CondsAtInstr(in) {
+				if b, ok := cd.V.(*ssa.BinOp); ok {
+					if _, isPc := loadsField(b.X, pcF); isPc {
+						op := b.Op
+						if !cd.Sense {
+							op = negate(op)
+						}
+						k, _ := constInt(b.Y)
+						if (op == token.GTR && k == 0) || (op == token.GEQ && k == 1) {
+							guarded = true
+						}
+					}
+				}
+			}
+		})
+		c.check(guarded, R, name+":pc-guard", p.pos(fn.Pos()), "DbgSourcePositions[Pc-1] is read only when Pc > 0", name+" indexes DbgSourcePositions[Pc-1] without testing Pc > 0: an error raised before a frame executed its first instruction (registry overflow during a tail call's frame set-up) indexes -1 and the Go panic escapes pcall/DoString")
 		c.check(okc, R, name+":line=positions[Pc-1]", p.pos(fn.Pos()), "the current line is the line of the instruction being executed (Pc already advanced)", name+" does not read DbgSourcePositions[Pc-1]: reported lines are those of the next (or a different) instruction")
+	}
+	// the level an error is attributed to: a host function that raises is level 0 and level n is its n-th
+	// caller; a VM-raised error has the Lua function itself at level 1. raiseError therefore asks where()
+	// for 'level' when the current frame is a host function and 'level-1' otherwise.
+	if fn := c.need(R, "lua", "(*LState).raiseError"); fn != nil {
+		where := p.Fn("lua", "(*LState).where")
+		isG := p.Field("lua", "LFunction", "IsG")
+		g := p.G(fn)
+		var lvl ssa.Value
+		for _, pm := range fn.Params {
+			if pm.Name() == "level" {
+				lvl = pm
+			}
+		}
+		okc := false
+		var site ssa.Instruction = fn.Blocks[0].Instrs[0]
+		for _, cl := range callsTo(fn, where) {
+			site = cl
+			ph, ok := cl.Call.Args[1].(*ssa.Phi)
+			if !ok {
+				continue
+			}
+			var plain, minus bool
+			for i, e := range ph.Edges {
+				if e == lvl {
+					for _, cd := range g.CondsOnEdge(ph.Block().Preds[i], ph.Block()) {
+						if _, ok := loadsField(cd.V, isG); ok && cd.Sense {
+							plain = true
+						}
+					}
+				} else if b, ok := e.(*ssa.BinOp); ok && b.Op == token.SUB && b.X == lvl {
+					if k, ok := constInt(b.Y); ok && k == 1 {
+						minus = true
+					}
+				}
+			}
+			okc = plain && minus
+		}
+		c.check(okc, R, "raiseError:level-counts-from-host-function", p.ipos(site), "level n of an error raised by a host function is that function's n-th caller", "raiseError passes level-1 to where() whatever the current frame is: error(msg, 2), raised from the host function 'error', reports the position of level 1 (the function that called error), not of its caller")
+	}
+}
+
+// ruleScopes: 'debug.getlocal enumerates exactly the named variables in scope'. The compiler writes
+// [StartPc, EndPc) per declared variable and LFunction.LocalName reads it. Decided here: (a) the record
+// whose EndPc is written is not found by using a register number as an index into Proto.DbgLocals (the
+// two numberings differ as soon as sibling blocks reuse registers, F23); (b) writer and reader agree on
+// whether EndPc is inclusive; (c) StartPc is the index of the next instruction.
+func ruleScopes(c *Ctx) {
+	const R = "R17-scope"
+	c.floor(R, 3)
+	p := c.P
+	endF := p.Field("lua", "DbgLocalInfo", "EndPc")
+	startF := p.Field("lua", "DbgLocalInfo", "StartPc")
+	dbgLocalsF := p.Field("lua", "FunctionProto", "DbgLocals")
+	regIdxF := p.Field("lua", "varNamePoolValue", "Index")
+	lastPC := p.Fn("lua", "(*codeStore).LastPC")
+	if endF == nil || startF == nil || dbgLocalsF == nil || lastPC == nil {
+		c.und(R, "anchors", "-", "DbgLocalInfo fields / LastPC not found")
+		return
+	}
+	plus := func(v ssa.Value) (int64, bool) { // v == LastPC() + k
+		v = stripConv(v)
+		if cl, ok := v.(*ssa.Call); ok && cl.Call.StaticCallee() == lastPC {
+			return 0, true
+		}
+		if b, ok := v.(*ssa.BinOp); ok && b.Op == token.ADD {
+			if cl, ok := stripConv(b.X).(*ssa.Call); ok && cl.Call.StaticCallee() == lastPC {
+				if k, ok := constInt(b.Y); ok {
+					return k, true
+				}
+			}
+		}
+		return 0, false
+	}
+	// reader
+	readerStrictEnd, readerStrictStart, readerFound := false, false, 0
+	if fn := c.need(R, "lua", "(*LFunction).LocalName"); fn != nil {
+		allInstrs(fn, func(in ssa.Instruction) {
+			b, ok := in.(*ssa.BinOp)
+			if !ok {
+				return
+			}
+			_, xEnd := loadsField(b.X, endF)
+			_, yEnd := loadsField(b.Y, endF)
+			_, xStart := loadsField(b.X, startF)
+			_, yStart := loadsField(b.Y, startF)
+			switch {
+			case yEnd && (b.Op == token.LSS || b.Op == token.LEQ): // pc < EndPc
+				readerStrictEnd = b.Op == token.LSS
+				readerFound++
+			case xEnd && (b.Op == token.GTR || b.Op == token.GEQ):
+				readerStrictEnd = b.Op == token.GTR
+				readerFound++
+			case xStart && (b.Op == token.LSS || b.Op == token.LEQ): // StartPc < pc
+				readerStrictStart = b.Op == token.LSS
+				readerFound++
+			case yStart && (b.Op == token.GTR || b.Op == token.GEQ):
+				readerStrictStart = b.Op == token.GTR
+				readerFound++
+			}
+		})
+	}
+	if readerFound < 2 {
+		c.und(R, "LocalName:comparisons", "-", "the StartPc/EndPc comparisons of LFunction.LocalName were not recognised")
+		return
+	}
+	_ = readerStrictStart
+	nEnd := 0
+	for _, fn := range p.srcFuncs {
+		if fn.Pkg == nil || fn.Pkg.Pkg.Path() != luaPath {
+			continue
+		}
+		allInstrs(fn, func(in ssa.Instruction) {
+			if st, ok := isFieldStore(in, endF); ok {
+				nEnd++
+				c.Sites++
+				k, isLast := plus(st.Val)
+				agree := isLast && ((readerStrictEnd && k == 1) || (!readerStrictEnd && k == 0))
+				c.check(agree, R, fname(fn)+":EndPc-convention", p.ipos(in), "EndPc is the index after the scope's last instruction and the reader tests pc < EndPc", fname(fn)+" writes an EndPc that disagrees with LocalName's comparison: a variable is invisible (or still visible) at the last instruction of its block (a call that is the last statement of a loop body sees none of the loop's variables)")
+				// (a) which record
+				fa := st.Addr.(*ssa.FieldAddr)
+				byReg := false
+				if ld, ok := fa.X.(*ssa.UnOp); ok {
+					if ia, ok := ld.X.(*ssa.IndexAddr); ok {
+						if _, ok := loadsField(ia.X, dbgLocalsF); ok && regIdxF != nil {
+							if _, ok := loadsField(ia.Index, regIdxF); ok {
+								byReg = true
+							} else if f, ok := stripConv(ia.Index).(*ssa.Field); ok && fieldOfVal(f) == regIdxF {
+								byReg = true
+							}
+						}
+					}
+				}
+				c.check(!byReg, R, fname(fn)+":EndPc-record", p.ipos(in), "the record is not looked up by register number", fname(fn)+" finds the record whose scope ends by indexing Proto.DbgLocals with a register number: DbgLocals has one entry per declaration, so once sibling blocks reuse a register the wrong record is closed and the real one keeps EndPc 0 (debug.getlocal lists a dead variable and misses the live one)")
+			}
+			if st, ok := isFieldStore(in, startF); ok {
+				c.Sites++
+				k, isLast := plus(st.Val)
+				c.check(isLast && k == 1, R, fname(fn)+":StartPc=next-instruction", p.ipos(in), "a variable's scope starts at the next instruction to be emitted", fname(fn)+" does not record LastPC()+1 as StartPc")
+			}
+		})
+	}
+	if nEnd == 0 {
+		c.und(R, "EndPc:writer", "-", "no store to DbgLocalInfo.EndPc found")
 	}
 }
